@@ -24,6 +24,7 @@ META = dict(
          "booleans. Consumers of the pooled flag are enumerated in the evidence.",
     technique="ordered-merge form recogniser, boolean typing of flag stores, exhaustive decision table, affine index arithmetic",
 )
+META["text"] += ' R5 includes CVR.from_vote (the one-contest record the RAIRE reader builds: votes == {contest_id: vote}, id and phantom flag passed on).'
 
 SPEC_TP = '''
 def spec(old, new):
@@ -281,6 +282,20 @@ def r5(chk):
             else:
                 ok = arg is LST
     chk.ob("C18.R5", where, "returns-merged", ok, "the reader returns the merged list (one record per card id)", node=rets[0] if rets else fn)
+    # the constructor the reader goes through: one contest, keyed by the contest id it was given
+    fv_ = chk.fn(REL, "CVR.from_vote", canonical=True)
+    rets_ = [r for r in walk_local(fv_) if isinstance(r, ast.Return)]
+    ok_fv = False
+    if len(rets_) == 1 and isinstance(rets_[0].value, ast.Call) and norm(rets_[0].value.func) in ("CVR", "cls"):
+        kw_ = {k.arg: k.value for k in rets_[0].value.keywords}
+        params_ = [a.arg for a in fv_.args.args][1:]
+        v_ = kw_.get("votes")
+        ok_fv = len(params_) >= 4 and norm(kw_.get("id", ast.Constant(value=0))) == "id" and norm(kw_.get("phantom", ast.Constant(value=0))) == "phantom" \
+            and isinstance(v_, ast.Dict) and len(v_.keys) == 1 and norm(v_.keys[0]) == "contest_id" and norm(v_.values[0]) == params_[0] \
+            and not rets_[0].value.args
+    chk.ob("C18.R5", W("CVR.from_vote"), "one-contest-record", ok_fv,
+           "CVR.from_vote(vote, id, contest_id, phantom) is the record with that id and flag whose votes are {contest_id: vote}",
+           node=fv_, strength="N")
     ff = chk.fn(REL, "CVR.from_raire_file")
     calls = [c for c in ast.walk(ff) if isinstance(c, ast.Call) and norm(c.func) in ("CVR.from_raire", "cls.from_raire")]
     ok = False
